@@ -188,8 +188,8 @@ Proof.
   destruct o as [x|tm|f]; cbn [cwop_step].
   - pose proof (add_rel c n w p x R) as A. destruct (cw_add c n w x) as [[w1 b] armed].
     destruct b as [batch|].
-    + destruct A as (A0 & A1 & A2 & _). rewrite A0. split; auto. apply IH; auto.
-    + destruct A as (A1 & _). apply IH; auto.
+    + destruct A as (A0 & A1 & A2 & _). cbn [fst]. rewrite A0. split; auto. apply IH; auto.
+    + destruct A as (A1 & _). cbn [fst]. apply IH; auto.
   - pose proof (fire_rel c tm w p R) as A. destruct (cw_fire tm w) as [w1 b].
     destruct b as [batch|]; [destruct A as (A1 & A2); split; auto|]; apply IH; auto.
   - pose proof (close_rel c f w p R) as A. destruct (cw_close f w) as [w1 b].
